@@ -43,8 +43,8 @@ def config(rnd, small):
         mx = rnd.choice([1, 2, 7, 100, 4096, 40000])
         cfg["max"] = mx; cfg["min"] = rnd.choice([1, max(1, mx // 2), mx])
     else:
-        mx = rnd.choice([100, 4096, 8191, 8192, 8193, 20000, 40000, 200000, 10485760])
-        cfg["max"] = mx; cfg["min"] = rnd.choice([1, 100, min(mx, 8192), min(mx, 10000), mx])
+        mx = rnd.choice([100, 4096, 8191, 8192, 8193, 20000, 40000, 200000, 200000, 10485760])
+        cfg["max"] = mx; cfg["min"] = rnd.choice([1, 100, min(mx, 8192), min(mx, 10000), mx, min(mx, 131073), min(mx, 150000)])
     return cfg
 
 
